@@ -11,6 +11,9 @@
 (*                shells                                                    *)
 (*  kind "flip"   every subset of the faces of a closed convex complex to   *)
 (*                flip before normal repair                                 *)
+(*  kind "voxels" every non-empty subset of the MaxF unit cells of a block  *)
+(*  kind "pairs"  every set of one or two oriented triangles over NV names  *)
+(*                (NV = 6: two faces without a common vertex exist)         *)
 (***************************************************************************)
 EXTENDS Integers, Sequences, FiniteSets, TLC, Json
 CONSTANTS Kind, NV, MaxF, MaxN
@@ -21,6 +24,8 @@ Cases == CASE Kind = "diag"   -> { S \in SUBSET Tris : Cardinality(S) <= MaxF /\
            [] Kind = "diag2"  -> { S \in SUBSET Segs : Cardinality(S) <= MaxF /\ S # {} }
            [] Kind = "forest" -> Forests
            [] Kind = "flip"   -> SUBSET (1..MaxF)
+           [] Kind = "voxels" -> (SUBSET (1..MaxF)) \ {{}}
+           [] Kind = "pairs"  -> { {s, t} : s, t \in Tris }
 VARIABLES c, done
 Init == c \in Cases /\ done = FALSE
 Next == ~done /\ done' = TRUE /\ UNCHANGED c /\ PrintT(<<"CASE", ToJson(c)>>)
